@@ -184,6 +184,10 @@ func vfC11VerifyVar(kv *vf.KV, root []byte, key types.AccountID, p *types.Contra
 
 func vfC11Var(compressed bool) {
 	ob := "C11.v"
+	if vf.Param("tierskip", 0) != 0 {
+		vf.Reach(ob) // job switched off in this tier
+		return
+	}
 	vf.NoMapPerm(true)
 	kv := vf.NewKV()
 	st := newBufferedStorage(nil, kv)
